@@ -6,11 +6,11 @@ tab="${1:-seeded/RESULTS.tsv}"
 wt="${2:-/var/tmp/verif-mutwt}"
 git -C /repo worktree remove --force "$wt" 2>/dev/null
 git -C /repo worktree add --detach "$wt" HEAD >/dev/null 2>&1 || exit 2
-export VERIF_REPO="$wt" VERIF_WORK="/var/tmp/verif-work-mut" VERIF_OUT="/var/tmp/verif-mutant-out"
+export VERIF_REPO="$wt" VERIF_WORK="${wt}-work" VERIF_OUT="${wt}-out"
 grep -v "^#" "$tab" | while IFS="$(printf '\t')" read -r id check tier result note; do
   [ -n "$id" ] || continue
   out=$(tools/try_mutant.py seeded/$id/patch.diff $check 2>&1 | tail -1)
   echo "$id $check -> $out"
 done
 git -C /repo worktree remove --force "$wt"
-rm -rf /var/tmp/verif-work-mut
+rm -rf "${wt}-work"
